@@ -1,6 +1,6 @@
 (* C11 — property theorems (statements only; proofs live in Proofs.v; vocabulary in Spec.v / Model.v). *)
 From Coq Require Import List NArith Bool.
-Require Import QV.C11.Model QV.C11.Spec QV.C11.Proofs.
+Require Import QV.C11.Model QV.C11.Spec QV.C11.Proofs QV.C11.Proofs_load.
 Import ListNotations.
 Open Scope N_scope.
 
@@ -10,8 +10,8 @@ Open Scope N_scope.
      (a) the archive exists, every listed document is complete and every identifier it refers to is listed,
      (b) every identifier holds its old content or the content of the completed operation,
      (c) as long as no publishing primitive ran, the storage is unchanged.
-   `_partial`: (a) is closedness, not recursive loadability (see C11_cycle_refuted / C11_crash_safe_statement). *)
-Theorem C11_crash_safe_partial : forall v b d c o k,
+   This version needs no acyclicity guard; (a) is closedness.  Recursive loadability: C11_crash_safe below. *)
+Theorem C11_crash_safe_closed : forall v b d c o k,
   safe v b = true -> wf d c -> op_in_scope d o ->
   let steps := steps_of (plan_of v b d c o) in
   let d' := run (firstn k steps) d in
@@ -19,7 +19,7 @@ Theorem C11_crash_safe_partial : forall v b d c o k,
   (forall i, lookup i (view d') = lookup i (view d) \/ lookup i (view d') = lookup i (view (run steps d))) /\
   (no_publish (firstn k steps) = true -> main d' = main d).
 Proof. exact crash_safe. Qed.
-Print Assumptions C11_crash_safe_partial.
+Print Assumptions C11_crash_safe_closed.
 
 (* the model variant that the correspondence check ties to /repo replaces atomically in all three backends *)
 Theorem C11_current_code_safe : forall b, safe current b = true.
@@ -69,10 +69,17 @@ Theorem C11_cycle_refuted :
 Proof. exact cycle_unsafe. Qed.
 Print Assumptions C11_cycle_refuted.
 
-(* the full-strength statement (open): with both guards every listed identifier loads after every crash prefix *)
-Definition C11_crash_safe_statement : Prop := forall v b d c o k,
+(* FULL STRENGTH: with both guards (guard_C11_dup_id inside op_in_scope, guard_C11_cycle) every listed identifier
+   LOADS (recursively, through a new PulseStorage) after every crash prefix; clauses (b) and (c) as above. *)
+Theorem C11_crash_safe : forall v b d c o k,
   safe v b = true -> wf d c -> all_load (view d) -> op_in_scope d o -> guard_C11_cycle d c o = true ->
-  all_load (view (run (firstn k (steps_of (plan_of v b d c o))) d)).
+  let steps := steps_of (plan_of v b d c o) in
+  let d' := run (firstn k steps) d in
+  (main d' <> None /\ all_load (view d')) /\
+  (forall i,lookup i (view d') = lookup i (view d) \/ lookup i (view d') = lookup i (view (run steps d))) /\
+  (no_publish (firstn k steps) = true -> main d' = main d).
+Proof. exact crash_safe_all. Qed.
+Print Assumptions C11_crash_safe.
 
 (* the hypotheses (and both guards) are satisfiable by a non-trivial input on every backend *)
 Theorem C11_hypotheses_satisfiable :
